@@ -1,14 +1,14 @@
 SPECIFICATION Spec
 CONSTANTS MaxDepth = 3
-  Families <- FamAlias
-  StoreByCopy = FALSE
+  Families <- FamShareQ
+  StoreByCopy = TRUE
   TailKeepsSets = TRUE
   SplitContinues = TRUE
   SkipEmpty = TRUE
-  SkipGetters = TRUE
+  SkipGetters = FALSE
   SplitCachesExport = FALSE
   SrcFRepass = TRUE
   MFRunCopies = TRUE
   AlterApplied = FALSE
-INVARIANT SeenIsExpected
+INVARIANT Emitted
 CHECK_DEADLOCK FALSE
